@@ -113,13 +113,16 @@ def special_cases(tier):
                        "plan": {"0": {"lost": False, "replies": [[1, None]] + [[2 ** j + 1, None] for j in range(4, 17)]}},
                        "exact": [], "max_selects": 3 * n},
             "ops": [{"op": "burst", "window": 1, "cmds": [], "cmds_range": [0, n, 0]}]}
-    # skip rule: window 2, command 0 (long extra timeout, request lost) stays outstanding while 65 540 other
-    # commands go round the counter: its number must be skipped, then it is retransmitted and answered.
-    skip = {"n_tries": 2, "timeout": 10, "advance_seq": 3, "mood": "seq-wrap-skip", "idx": -2,
-            "policy": {"kind": "sim", "plan": {"0": {"lost": True, "replies": []}}, "exact": [],
-                       "max_selects": 3 * n},
-            "ops": [{"op": "burst", "window": 2, "cmds": [[0, 200000]], "cmds_range": [1, n + 3, 0]}]}
-    return [wrap, skip]
+    # skip rule: `stuck` commands with ADJACENT sequence numbers (long extra timeout, requests lost) stay
+    # outstanding while 65 540 other commands go round the counter through the last window slot: all their
+    # numbers must be skipped (a single skip is not enough), then they are retransmitted and answered.
+    def skip(stuck, idx):
+        return {"n_tries": 2, "timeout": 10, "advance_seq": 3, "mood": "seq-wrap-skip-%d" % stuck, "idx": idx,
+                "policy": {"kind": "sim", "plan": dict((str(i), {"lost": True, "replies": []}) for i in range(stuck)),
+                           "exact": [], "max_selects": 3 * n},
+                "ops": [{"op": "burst", "window": stuck + 1, "cmds": [[i, 200000] for i in range(stuck)],
+                         "cmds_range": [stuck, n + 3, 0]}]}
+    return [wrap, skip(2, -2), skip(3, -3)]
 
 
 def enumerated_cases(tier):
@@ -548,7 +551,8 @@ def run(chk, args):
         "80% fault simulations (per-transmission outcome ok / request lost / reply lost / delayed 1-3 timeouts / "
         "duplicated / retryable rc / fatal rc, select waking exactly at or one tick after the deadline, late replies "
         "crossing into the next call), 20% raw event scripts (arbitrary duplication and reordering, clock steps "
-        "including backwards); plus two 65 537-command schedules that take the sequence counter round (one with copies "
+        "including backwards); plus three 65 537-command schedules that take the sequence counter round (two or three commands with adjacent "
+        "sequence numbers stuck across the wrap; one with copies "
         "of a reply arriving after 2^k commands, k = 4..16) and an exhaustive enumeration (1-2 commands, window 1-2, "
         "tries <= 3, six outcomes per possible transmission; the quick tier takes its part with <= 2 transmissions). "
         "non-trivial = a call with >= 2 commands and a retransmission, an ignored datagram or an exception; "
